@@ -5,6 +5,7 @@ package main
 // canonical numbers (order of creation).
 
 import (
+	"errors"
 	"fmt"
 	"sort"
 	"strings"
@@ -319,6 +320,9 @@ func (e *CExec) Listen(l int, fail bool) string {
 func (e *CExec) Conn(l int, mode string) {
 	e.Op(fmt.Sprintf("conn %d %s", l, mode), func() []cev {
 		tp := vt.NewPipe("in")
+		if e.c.R.Intn(3) == 0 {
+			tp.CloseErr = errClosePipe // closing the transport connection reports an error: the pipe is gone all the same
+		}
 		if mode == "deadpeer" {
 			tp.Drop() // the peer has already gone: the first receive on this pipe fails
 		}
@@ -378,6 +382,9 @@ func (e *CExec) DialRes(d int, ok bool, mode string) {
 			return nil
 		}
 		tp := vt.NewPipe("out")
+		if e.c.R.Intn(3) == 0 {
+			tp.CloseErr = errClosePipe // closing the transport connection reports an error: the pipe is gone all the same
+		}
 		e.mu.Lock()
 		e.pendingT = append(e.pendingT, tp)
 		if mode == "hookclose" {
@@ -526,3 +533,5 @@ func (e *CExec) oracle() {
 		}
 	}
 }
+
+var errClosePipe = errors.New("close: connection reset by peer")
